@@ -7,6 +7,7 @@
 //   - in a fresh child that first did unrelated work (another node with the opposite plugin configuration connecting
 //     unrelated blocks, then side-chain executions on the node under test),
 //   - in this long-running test process, after all the cases it has executed before,
+//
 // and every execution must report the same digests (core.go: BlockDigest).  No expected value is computed by the
 // harness: the only demand is equality between executions, which is exactly what the property states.
 package c13
@@ -23,6 +24,7 @@ import (
 	"os/exec"
 	"path/filepath"
 	"reflect"
+	"runtime"
 	"strconv"
 	"strings"
 	"sync"
@@ -319,13 +321,13 @@ func genCase(seed int64) (*CaseFile, []string) {
 
 type execSpec struct {
 	Name       string
-	GoMaxProcs int // 0: this process
+	GoMaxProcs int // GOMAXPROCS of the child
 	CPUs       int // taskset -c 0-(CPUs-1)
 	Warm       bool
 }
 
 // watchdog for one child; expiry is inconclusive, never a violation
-const childTimeout = 240 * time.Second
+const childTimeout = 600 * time.Second
 
 func runChild(casePath string, s execSpec) (*Result, string) {
 	bin := filepath.Join(os.Getenv("VERIF_BIN"), "c13_exec")
@@ -362,24 +364,27 @@ func runChild(casePath string, s execSpec) (*Result, string) {
 		}
 	}
 	tail := errb.String()
+	if !strings.Contains(tail, "panic:") && !strings.Contains(tail, "fatal error:") {
+		// killed from outside (memory pressure, ...) or taskset refused the mask: nothing the code under test did
+		lib.Inconclusive("child %s ended without result and without a Go crash: %v %s", s.Name, err, tail)
+	}
 	if len(tail) > 1500 {
 		tail = tail[len(tail)-1500:]
 	}
-	return nil, fmt.Sprintf("child died: %v; stderr tail: %s", err, tail)
+	return nil, fmt.Sprintf("child crashed: %v; stderr tail: %s", err, tail)
 }
 
 func specs(r *rand.Rand) []execSpec {
-	ncpu := 16
-	// design: GOMAXPROCS in {1,2,16}, taskset k in {1,3,16}; one extra drawn combination per case
-	ss := []execSpec{
-		{Name: "fresh-g1-k1", GoMaxProcs: 1, CPUs: 1},
-		{Name: "fresh-g2-k3", GoMaxProcs: 2, CPUs: 3},
-		{Name: "fresh-g16-k16", GoMaxProcs: 16, CPUs: ncpu},
+	// design: GOMAXPROCS in {1,2,16} with taskset k in {1,3,16}; plus one drawn combination and the warm child
+	g1, k1 := []int{1, 2, 3, 5, 8, 16}[r.Intn(6)], []int{2, 4, 5, 7, 11, 16}[r.Intn(6)]
+	g2, k2 := []int{1, 4, 16}[r.Intn(3)], []int{1, 6, 16}[r.Intn(3)]
+	ss := []execSpec{{GoMaxProcs: 1, CPUs: 1}, {GoMaxProcs: 2, CPUs: 3}, {GoMaxProcs: 16, CPUs: 16}, {GoMaxProcs: g1, CPUs: k1}, {GoMaxProcs: g2, CPUs: k2, Warm: true}}
+	for i := range ss {
+		if ss[i].CPUs > runtime.NumCPU() { // taskset refuses CPUs the machine does not have
+			ss[i].CPUs = runtime.NumCPU()
+		}
+		ss[i].Name = fmt.Sprintf("%s-g%d-k%d", map[bool]string{false: "fresh", true: "warm"}[ss[i].Warm], ss[i].GoMaxProcs, ss[i].CPUs)
 	}
-	g, k := []int{1, 2, 3, 5, 8, 16}[r.Intn(6)], []int{2, 4, 5, 7, 11, 16}[r.Intn(6)]
-	ss = append(ss, execSpec{Name: fmt.Sprintf("fresh-g%d-k%d", g, k), GoMaxProcs: g, CPUs: k})
-	g, k = []int{1, 4, 16}[r.Intn(3)], []int{1, 6, 16}[r.Intn(3)]
-	ss = append(ss, execSpec{Name: fmt.Sprintf("warm-g%d-k%d", g, k), GoMaxProcs: g, CPUs: k, Warm: true})
 	return ss
 }
 
@@ -404,7 +409,7 @@ func diff(a, b *Result) []string {
 }
 
 // checkCase runs every execution of one case and compares them with the first one.
-func checkCase(t *testing.T, test string, seed int64, c *CaseFile, desc []string, ss []execSpec, inProcess bool) *Result {
+func checkCase(t *testing.T, test string, seed int64, c *CaseFile, desc []string, ss []execSpec) *Result {
 	work := os.Getenv("VERIF_WORK")
 	if work == "" {
 		work = t.TempDir()
@@ -425,7 +430,7 @@ func checkCase(t *testing.T, test string, seed int64, c *CaseFile, desc []string
 	results := make([]*Result, len(ss))
 	died := make([]string, len(ss))
 	var wg sync.WaitGroup
-	sem := make(chan struct{}, 3) // at most 3 children at a time
+	sem := make(chan struct{}, lib.Pick(3, 2)) // children running at a time (the thorough tier has 12 shards doing this)
 	for i := range ss {
 		wg.Add(1)
 		go func(i int) {
@@ -439,15 +444,13 @@ func checkCase(t *testing.T, test string, seed int64, c *CaseFile, desc []string
 	for i := range ss {
 		names[i] = ss[i].Name
 	}
-	if inProcess { // this long-running process, concurrently with the children
-		res, err := Run(c, false)
-		if err != nil {
-			lib.Inconclusive("in-process execution: %v", err)
-		}
-		wg.Wait()
-		results, died, names = append(results, res), append(died, ""), append(names, "long-running-test-process")
+	// this long-running process executes the case too, concurrently with the children
+	res, err := Run(c, false)
+	if err != nil {
+		lib.Inconclusive("in-process execution: %v", err)
 	}
 	wg.Wait()
+	results, died, names = append(results, res), append(died, ""), append(names, "long-running-test-process")
 
 	rendering := map[string]interface{}{"seed": seed, "cfg": c.Cfg, "blocks": desc, "executions": names, "case": c}
 	nDied := 0
@@ -574,7 +577,7 @@ func TestGenDeterminism(t *testing.T) {
 		cases, names := savedCases()
 		for i, c := range cases {
 			ss := specs(rand.New(rand.NewSource(int64(i))))
-			checkCase(t, "TestGenDeterminism", -1, c, []string{"saved case " + names[i]}, ss, true)
+			checkCase(t, "TestGenDeterminism", -1, c, []string{"saved case " + names[i]}, ss)
 			lib.Eval()
 		}
 		if len(cases) > 0 {
@@ -587,7 +590,7 @@ func TestGenDeterminism(t *testing.T) {
 		seed := base + int64(i)*1000003 // int64 wrap-around is fine: any value seeds math/rand
 		c, desc := genCase(seed)
 		ss := specs(rand.New(rand.NewSource(seed ^ 0x5eed)))
-		res := checkCase(t, "TestGenDeterminism", seed, c, desc, ss, true)
+		res := checkCase(t, "TestGenDeterminism", seed, c, desc, ss)
 		lib.Eval()
 		classify(res, c, desc, seed)
 	}
